@@ -48,6 +48,9 @@ sel m11 && run m11 alarm database/output/bibtex.py "        if first or middle:
 sel m12 && run m12 alarm database/output/bibyaml.py "fields.update(entry.fields)" "fields.update((k, int(v) if v.isdigit() else v) for k, v in entry.fields.items())"
 sel m13 && run m13 alarm database/output/bibyaml.py "data['preamble'] = bib_data.preamble" "data['preamble'] = bib_data.preamble.strip()"
 sel m14 && run m14 alarm database/input/bibtexml.py "e.fields[field_name] = field_text" "e.fields[field_name] = field_text.strip()"
+sel m15 && run m15 alarm database/output/bibtexml.py "writer.start('entry', dict(id=key))" "writer.start('entry', dict(id=entry.key))"
+sel m16 && run m16 alarm database/output/bibtex.py "stream.write(u'{%s' % key)" "stream.write(u'{%s' % entry.key)"
+sel m17 && run m17 alarm database/output/bibyaml.py "yield key, fields" "yield entry.key, fields"
 sel h1 && run h1 quiet database/output/bibtex.py "        first = person.get_part_as_text('first')
         middle = person.get_part_as_text('middle')
         prelast = person.get_part_as_text('prelast')
